@@ -1,15 +1,25 @@
 // C35 harness: histories of location updates and lookups on a real
 // wdclient.MasterClient (embedded vidMap).
 //
-//	direct mode  updates are single addLocation / deleteLocation calls (verif hook)
+//	direct mode  updates are single addLocation / deleteLocation calls (verif hook);
+//	             a reset is one real tryAllMasters round over masters that cannot be
+//	             reached (connection refused / unparsable address)
 //	stream mode  updates are VolumeLocation messages sent over a real in-process
 //	             gRPC KeepConnected stream and processed by the real
-//	             tryAllMasters/tryConnectToMaster loop, with leader hints and
-//	             disconnects; a sentinel message on volume 9 is used to wait until
-//	             the client has processed everything sent before it
+//	             tryAllMasters/tryConnectToMaster loop, with leader hints,
+//	             disconnects and unreachable masters before/after the real one; a
+//	             sentinel message on volume 9 is used to wait until the client has
+//	             processed everything sent before it
 //
 // Readers call LookupVolumeServerUrl / LookupFileId / GetVidLocations, and take
 // slices with GetLocations that they HOLD across later updates and read again.
+//
+// Concurrent cases (both modes) additionally run reader GOROUTINES while the
+// updates are applied.  The writer counts update events: `started` is raised
+// before an update is handed to the client, `done` after it is known to be
+// applied.  A reader loads lo := done before its call and hi := started after it;
+// the call took the read lock after j updates for some lo <= j <= hi, and the Coq
+// side (window_ok) demands that its answer is the answer of one such j.
 package main
 
 import (
@@ -18,6 +28,8 @@ import (
 	"net"
 	"strconv"
 	"strings"
+	"sync"
+	"sync/atomic"
 	"time"
 
 	"github.com/chrislusf/seaweedfs/weed/pb/master_pb"
@@ -28,8 +40,13 @@ import (
 
 // ---------- universe ----------
 
-var urls = []string{"u1:8080", "u2:8080", "u3:8080", "u4:8080"}
+var urls = []string{"u1:8080", "u2:8080", "u3:8080", "u4:8080", "u5:8080", "u6:8080"}
 var dcs = []string{"", "dc1", "dc2"}
+
+// masters that cannot be reached: connection refused (gRPC port 10001 / 10002 are
+// outside the ephemeral range the in-process master listens in) and an address
+// pb.ParseServerToGrpcAddress rejects
+var badMasters = []string{"127.0.0.1:1", "nomaster", "127.0.0.1:2"}
 
 func mkLoc(u, d int) wdclient.Location {
 	return wdclient.Location{Url: urls[u], PublicUrl: "pub-" + urls[u] + "-" + dcs[d], DataCenter: dcs[d]}
@@ -44,12 +61,13 @@ func coqD(d string) string {
 	panic("unknown data center " + d)
 }
 
-// coqLoc prints a location as K Ux Dcy when it is one of the universe, else in full.
+// coqLoc prints a location as LuD (= K Uu DcD in coq/check/C35.v) when it is one
+// of the universe, else in full (a torn or foreign record).
 func coqLoc(l wdclient.Location) string {
 	for u := range urls {
 		for d := range dcs {
 			if mkLoc(u, d) == l {
-				return fmt.Sprintf("L%d%d", u+1, d) // = K U(u+1) Dc(d) in coq/check/C35.v
+				return fmt.Sprintf("L%d%d", u+1, d)
 			}
 		}
 	}
@@ -148,49 +166,89 @@ func startMaster() *master {
 
 // ---------- one case ----------
 
+type snapRec struct {
+	v    uint32
+	ls   []wdclient.Location // the slice itself, NOT a copy
+	text string              // what it showed when it was taken
+}
+
 type runner struct {
 	mc     *wdclient.MasterClient
 	stream bool
 	ms     *master
+	nb, na int // unreachable masters before / after the real one (stream), or nb unreachable masters (direct)
 	done   chan bool
 	live   bool // a tryAllMasters round is running
 	sync   int  // number of sentinel messages sent
 
 	ops, obs, canon []string
-	snaps           [][]wdclient.Location
+	snaps           []snapRec
 	lastSt          [3]string
 	nontrivial      bool
 	out             *hx.Out
+
+	// update-event counters read by the concurrent readers
+	evStarted, evDone int64
+	stop              int32
+	wg                sync.WaitGroup
+	mu                sync.Mutex
+	conc              []string
+	reads, overlap    int64
 }
 
-func newRunner(out *hx.Out, dc string, stream bool) *runner {
-	r := &runner{stream: stream, out: out, done: make(chan bool, 1), lastSt: [3]string{"NF", "NF", "NF"}}
+// newRunner: bad = indices into badMasters placed before the real master (stream
+// mode; `after` more behind it) or forming the whole master list (direct mode).
+func newRunner(out *hx.Out, dc string, stream bool, before, after int) *runner {
+	r := &runner{stream: stream, out: out, done: make(chan bool, 1), lastSt: [3]string{"NF", "NF", "NF"}, nb: before, na: after}
 	var masters []string
+	for i := 0; i < before; i++ {
+		masters = append(masters, badMasters[i%len(badMasters)])
+	}
 	if stream {
 		r.ms = startMaster()
-		masters = []string{r.ms.addr}
+		masters = append(masters, r.ms.addr)
+		for i := 0; i < after; i++ {
+			masters = append(masters, badMasters[(before+i)%len(badMasters)])
+		}
 	}
+	out.Count(fmt.Sprintf("masters=%d", len(masters)), 1)
 	r.mc = wdclient.NewMasterClient(grpc.WithInsecure(), "verif", "localhost", 0, dc, masters)
 	return r
 }
+
+// begin: n update events are about to be handed to the client
+func (r *runner) begin(n int) { atomic.AddInt64(&r.evStarted, int64(n)) }
+
+// end: everything begun so far is known to be applied
+func (r *runner) end() { atomic.StoreInt64(&r.evDone, atomic.LoadInt64(&r.evStarted)) }
 
 func (r *runner) connect() {
 	if r.live {
 		return
 	}
 	r.live = true
+	// every unreachable master in front of the real one costs one reset
+	r.begin(r.nb)
+	for i := 0; i < r.nb; i++ {
+		r.push("CDisc", "ONone", "x")
+		r.out.Count("op:reset-unreachable-master", 1)
+	}
 	go func() { r.mc.VerifTryAllMasters(); r.done <- true }()
+}
+
+func vstOf(ls []wdclient.Location, found bool) string {
+	if !found {
+		return "NF"
+	}
+	return fmt.Sprintf("(Fd %s %s)", coqLocs(ls), coqCap(cap(ls)))
 }
 
 func (r *runner) vst(v uint32) string {
 	ls, found := r.mc.GetLocations(v)
-	if !found {
-		return "NF"
-	}
-	if len(ls) > 0 {
+	if found && len(ls) > 0 {
 		r.nontrivial = true
 	}
-	return fmt.Sprintf("(Fd %s %s)", coqLocs(ls), coqCap(cap(ls)))
+	return vstOf(ls, found)
 }
 
 // state prints the OSt observation; a volume whose observation is textually the
@@ -217,27 +275,52 @@ func (r *runner) push(op, obs, canon string) {
 
 // direct update
 func (r *runner) ev(add bool, v uint32, l wdclient.Location) {
+	r.begin(1)
 	if add {
 		r.mc.VerifAddLocation(v, l)
+		r.end()
 		r.push(fmt.Sprintf("(A %s %s)", coqVid(v), coqLoc(l)), r.state(), fmt.Sprintf("A%d%s/%s", v, l.Url, l.DataCenter))
 		r.out.Count("op:add", 1)
 	} else {
 		r.mc.VerifDeleteLocation(v, l)
+		r.end()
 		r.push(fmt.Sprintf("(Dl %s %s)", coqVid(v), coqLoc(l)), r.state(), fmt.Sprintf("D%d%s", v, l.Url))
 		r.out.Count("op:delete", 1)
 	}
 }
 
+// direct reset: one real tryAllMasters round over nb unreachable masters, i.e. nb resets
+func (r *runner) reset() {
+	if r.stream || r.nb == 0 {
+		panic("reset() needs a direct runner with unreachable masters")
+	}
+	r.begin(r.nb)
+	r.mc.VerifTryAllMasters()
+	r.end()
+	for i := 1; i < r.nb; i++ {
+		r.push("CDisc", "ONone", "x")
+	}
+	r.push("CDisc", r.state(), "X")
+	r.out.Count("op:reset-direct", 1)
+}
+
 const sentinelVid = 9
 
-// msg sends one message over the stream and then a sentinel message, and waits
-// until the client has processed the sentinel.
-func (r *runner) msg(leader bool, l wdclient.Location, nw, dl []uint32) {
+func evCount(leader bool, nw, dl []uint32) int {
+	if leader {
+		return 0
+	}
+	return len(nw) + len(dl)
+}
+
+// send hands one message to the stream without waiting for it to be processed
+func (r *runner) send(leader bool, l wdclient.Location, nw, dl []uint32) {
 	r.connect()
 	m := &master_pb.VolumeLocation{Url: l.Url, PublicUrl: l.PublicUrl, DataCenter: l.DataCenter, NewVids: nw, DeletedVids: dl}
 	if leader {
 		m.Leader = r.ms.addr
 	}
+	r.begin(evCount(leader, nw, dl))
 	r.ms.script <- scriptItem{msg: m, leads: leader}
 	r.push(fmt.Sprintf("(CMsg (G %s %s %s %s))", hx.Bool(leader), coqLoc(l), coqVids(nw), coqVids(dl)), "ONone",
 		fmt.Sprintf("M%v%s/%s+%v-%v", leader, l.Url, l.DataCenter, nw, dl))
@@ -245,6 +328,12 @@ func (r *runner) msg(leader bool, l wdclient.Location, nw, dl []uint32) {
 	if leader {
 		r.out.Count("op:msg-leader-hint", 1)
 	}
+}
+
+// msg sends one message over the stream and then a sentinel message, and waits
+// until the client has processed the sentinel.
+func (r *runner) msg(leader bool, l wdclient.Location, nw, dl []uint32) {
+	r.send(leader, l, nw, dl)
 	r.sentinel()
 }
 
@@ -263,6 +352,7 @@ func (r *runner) sentinel() {
 		dl = []uint32{sentinelVid}
 	}
 	m := &master_pb.VolumeLocation{Url: l.Url, PublicUrl: l.PublicUrl, DataCenter: l.DataCenter, NewVids: nw, DeletedVids: dl}
+	r.begin(1)
 	r.ms.script <- scriptItem{msg: m}
 	deadline := time.Now().Add(20 * time.Second)
 	for r.sentinelLen() != want {
@@ -271,23 +361,41 @@ func (r *runner) sentinel() {
 		}
 		time.Sleep(50 * time.Microsecond)
 	}
+	r.end()
 	r.push(fmt.Sprintf("(CMsg (G false %s %s %s))", coqLoc(l), coqVids(nw), coqVids(dl)), r.state(), "sync")
 }
 
+// disconnect ends the stream: one reset, plus one for every unreachable master
+// behind the real one
 func (r *runner) disconnect() {
 	r.connect()
+	r.begin(1 + r.na)
 	r.ms.script <- scriptItem{}
 	select {
 	case <-r.done:
 	case <-time.After(20 * time.Second):
 		panic("tryAllMasters did not return after the stream ended")
 	}
+	r.end()
 	r.live = false
+	for i := 0; i < r.na; i++ {
+		r.push("CDisc", "ONone", "x")
+		r.out.Count("op:reset-unreachable-master", 1)
+	}
 	r.push("CDisc", r.state(), "X")
 	r.out.Count("op:disconnect", 1)
 }
 
+// leaderThenDisconnect: a leader hint followed DIRECTLY by the end of the stream to
+// the hinted leader (no message in between)
+func (r *runner) leaderThenDisconnect(l wdclient.Location, nw, dl []uint32) {
+	r.send(true, l, nw, dl)
+	r.out.Count("op:leader-hint-then-disconnect", 1)
+	r.disconnect()
+}
+
 func (r *runner) finish() {
+	r.stopReaders()
 	if r.live {
 		r.ms.script <- scriptItem{}
 		<-r.done
@@ -316,70 +424,199 @@ func coqStrs(xs []string) string {
 	return hx.List(ys)
 }
 
+func urlsRes(us []string, err error) string {
+	if err != nil {
+		return errClass(err)
+	}
+	return "(Ok " + coqStrs(us) + ")"
+}
+
+func locsRes(ls []wdclient.Location, err error) string {
+	if err != nil {
+		return errClass(err)
+	}
+	return "(Ok " + coqLocs(ls) + ")"
+}
+
 func (r *runner) lookupUrl(s string) {
 	us, err := r.mc.LookupVolumeServerUrl(s)
-	o := ""
 	if err != nil {
-		o = "(OUrls " + errClass(err) + ")"
 		r.out.Count("lookup:error", 1)
 	} else {
-		o = "(OUrls (Ok " + coqStrs(us) + "))"
 		r.out.Count(fmt.Sprintf("lookup:urls=%d", len(us)), 1)
 	}
-	r.push("(CLookupUrl "+hx.Str(s)+")", o, "L"+s)
+	r.push("(CLookupUrl "+hx.Str(s)+")", "(OUrls "+urlsRes(us, err)+")", "L"+s)
 }
 
 func (r *runner) lookupFid(s string) {
 	us, err := r.mc.LookupFileId(s)
-	o := ""
 	if err != nil {
-		o = "(OUrls " + errClass(err) + ")"
 		r.out.Count("lookupfid:error", 1)
 	} else {
-		o = "(OUrls (Ok " + coqStrs(us) + "))"
 		r.out.Count("lookupfid:ok", 1)
 	}
-	r.push("(CLookupFid "+hx.Str(s)+")", o, "F"+s)
+	r.push("(CLookupFid "+hx.Str(s)+")", "(OUrls "+urlsRes(us, err)+")", "F"+s)
 }
 
 func (r *runner) getVidLocs(s string) {
 	ls, err := r.mc.GetVidLocations(s)
-	o := ""
-	if err != nil {
-		o = "(OLocs " + errClass(err) + ")"
-	} else {
-		o = "(OLocs (Ok " + coqLocs(ls) + "))"
-	}
 	r.out.Count("op:getvidlocs", 1)
-	r.push("(CGetVidLocs "+hx.Str(s)+")", o, "V"+s)
+	r.push("(CGetVidLocs "+hx.Str(s)+")", "(OLocs "+locsRes(ls, err)+")", "V"+s)
 }
 
 func (r *runner) snap(v uint32) {
 	ls, found := r.mc.GetLocations(v)
 	if found {
-		r.snaps = append(r.snaps, ls) // the slice itself, NOT a copy
+		r.snaps = append(r.snaps, snapRec{v, ls, coqLocs(ls)})
+		if len(ls) > 0 {
+			r.nontrivial = true
+		}
 	}
 	r.out.Count("op:snapshot", 1)
-	r.push("(CSnap "+coqVid(v)+")", "(OSnap "+r.vst(v)+")", fmt.Sprintf("S%d", v))
+	r.out.Count(fmt.Sprintf("snapshot:len=%d,cap=%d", len(ls), cap(ls)), 1)
+	r.push("(CSnap "+coqVid(v)+")", "(OSnap "+vstOf(ls, found)+")", fmt.Sprintf("S%d", v))
 }
 
 func (r *runner) reread(k int) {
 	r.out.Count("op:reread", 1)
-	r.push("(CReread "+hx.Nat(k)+")", "(ORead "+coqLocs(r.snaps[k])+")", fmt.Sprintf("R%d", k))
+	now := coqLocs(r.snaps[k].ls)
+	// is the held slice stale, i.e. different from what the cache shows now?
+	cur, found := r.mc.GetLocations(r.snaps[k].v)
+	if !found || coqLocs(cur) != now {
+		r.out.Count("reread:stale", 1)
+	}
+	r.push("(CReread "+hx.Nat(k)+")", "(ORead "+now+")", fmt.Sprintf("R%d", k))
+}
+
+// ---------- concurrent readers ----------
+
+const maxPerWindow = 1 // recorded answers per reader and value of lo (3x as many when the call overlapped an update)
+const maxHeld = 6      // recorded held-slice checks per reader
+
+func (r *runner) record(lo, hi int64, q string) {
+	r.mu.Lock()
+	r.conc = append(r.conc, fmt.Sprintf("(RO %d %d %s)", lo, hi, q))
+	r.mu.Unlock()
+	if hi > lo {
+		atomic.AddInt64(&r.overlap, 1)
+	}
+}
+
+// startReaders starts n goroutines that query the cache until stopReaders.
+// Reader g asks one kind of question (g mod 3) about the given volume-id strings.
+func (r *runner) startReaders(n int, rng *hx.Rng, vids []uint32) {
+	for g := 0; g < n; g++ {
+		kind := g % 3
+		my := rng.Fork()
+		r.wg.Add(1)
+		go func() {
+			defer r.wg.Done()
+			lastLo, inWindow, lastQ := int64(-1), 0, ""
+			type held struct {
+				ls   []wdclient.Location
+				text string
+			}
+			var keep *held
+			heldChecks := 0
+			for atomic.LoadInt32(&r.stop) == 0 {
+				v := vids[my.Intn(len(vids))]
+				s := strconv.FormatUint(uint64(v), 10)
+				// the window is read tightly around the call; printing comes after it
+				var lo, hi int64
+				q := ""
+				switch kind {
+				case 0:
+					lo = atomic.LoadInt64(&r.evDone)
+					ls, found := r.mc.GetLocations(v)
+					hi = atomic.LoadInt64(&r.evStarted)
+					q = "(QGet " + coqVid(v) + " " + vstOf(ls, found) + ")"
+					if found && keep == nil && my.Chance(1, 4) {
+						keep = &held{ls, coqLocs(ls)} // hold the slice itself
+					}
+				case 1:
+					lo = atomic.LoadInt64(&r.evDone)
+					us, err := r.mc.LookupVolumeServerUrl(s)
+					hi = atomic.LoadInt64(&r.evStarted)
+					q = "(QUrl " + hx.Str(s) + " " + urlsRes(us, err) + ")"
+				default:
+					lo = atomic.LoadInt64(&r.evDone)
+					ls, err := r.mc.GetVidLocations(s)
+					hi = atomic.LoadInt64(&r.evStarted)
+					q = "(QLocs " + hx.Str(s) + " " + locsRes(ls, err) + ")"
+				}
+				atomic.AddInt64(&r.reads, 1)
+				if lo != lastLo {
+					lastLo, inWindow, lastQ = lo, 0, ""
+					// a slice held since an earlier window must still show what it showed
+					if keep != nil && heldChecks < maxHeld {
+						r.record(lo, hi, "(QHeld "+keep.text+" "+coqLocs(keep.ls)+")")
+						heldChecks++
+						keep = nil
+					}
+				}
+				// an answer that overlaps an update is always worth keeping
+				if q != lastQ && (inWindow < maxPerWindow || (hi > lo && inWindow < 3*maxPerWindow)) {
+					r.record(lo, hi, q)
+					inWindow++
+					lastQ = q
+				}
+			}
+		}()
+	}
+}
+
+func (r *runner) stopReaders() {
+	atomic.StoreInt32(&r.stop, 1)
+	r.wg.Wait()
+}
+
+// pause lets the readers run between two updates
+func pause(rng *hx.Rng) {
+	switch rng.Intn(4) {
+	case 0:
+	case 1:
+		time.Sleep(time.Duration(rng.Range(1, 30)) * time.Microsecond)
+	default:
+		t := time.Now().Add(time.Duration(rng.Range(1, 20)) * time.Microsecond)
+		for time.Now().Before(t) {
+		}
+	}
 }
 
 func (r *runner) emit(dc, kind string) {
 	r.finish()
-	term := fmt.Sprintf("{| client_dc := %s; ops := %s; impl := %s |}", coqD(dc), hx.List(r.ops), hx.List(r.obs))
+	if len(r.conc) > 0 {
+		r.out.Count("conc:answers-recorded", len(r.conc))
+		r.out.Count("conc:answers-overlapping-an-update", int(r.overlap))
+		r.out.Count("conc:reads", int(r.reads))
+	}
+	term := fmt.Sprintf("{| client_dc := %s; ops := %s; impl := %s; conc := %s |}", coqD(dc), hx.List(r.ops), hx.List(r.obs), hx.List(r.conc))
 	r.out.Add(term, kind+"|"+dc+"|"+strings.Join(r.canon, ";"), r.nontrivial, kind)
 }
 
 // ---------- generators ----------
 
 var vidStrings = []string{"1", "2", "3"}
-var oddVidStrings = []string{"", "x", "+2", "-1", " 1", "1 ", "01", "7", "4294967297", "4294967298", "4294967299",
+var oddVidStrings = []string{"", "x", "+2", "-1", " 1", "1 ", "01", "7", "0", "00", "4294967295", "4294967296", "4294967297", "4294967298", "4294967299",
 	"99999999999999999999", "9223372036854775808", "-9223372036854775808", "1_0", "0x1", "-", "+"}
 var oddFids = []string{"3", "3,ab,cd", ",x", "x,y", "4294967299,aa", "2,", ""}
+
+// universe of one case: the first nu urls and the volumes 1..nv
+type uni struct{ nu, nv int }
+
+func genUni(r *hx.Rng) uni {
+	return uni{nu: []int{2, 3, 4, 4, 6, 6}[r.Intn(6)], nv: []int{1, 2, 3, 3}[r.Intn(4)]}
+}
+
+func (u uni) vid(r *hx.Rng) uint32 { return uint32(1 + r.Intn(u.nv)) }
+
+func (u uni) vids() []uint32 {
+	vs := make([]uint32, u.nv)
+	for i := range vs {
+		vs[i] = uint32(i + 1)
+	}
+	return vs
+}
 
 func genVidString(r *hx.Rng) string {
 	if r.Chance(1, 6) {
@@ -388,24 +625,24 @@ func genVidString(r *hx.Rng) string {
 	return r.PickStr(vidStrings)
 }
 
-func genLoc(r *hx.Rng) wdclient.Location {
+func (u uni) loc(r *hx.Rng) wdclient.Location {
 	d := 1 + r.Intn(2)
 	if r.Chance(1, 12) {
 		d = 0
 	}
-	return mkLoc(r.Intn(4), d)
+	return mkLoc(r.Intn(u.nu), d)
 }
 
-func genVids(r *hx.Rng, max int) []uint32 {
+func (u uni) genVids(r *hx.Rng, max int) []uint32 {
 	n := r.Intn(max + 1)
 	vs := make([]uint32, n)
 	for i := range vs {
-		vs[i] = uint32(1 + r.Intn(3))
+		vs[i] = u.vid(r)
 	}
 	return vs
 }
 
-func reader(rn *runner, r *hx.Rng) {
+func reader(rn *runner, r *hx.Rng, u uni) {
 	switch k := r.Intn(10); {
 	case k < 3:
 		rn.lookupUrl(genVidString(r))
@@ -418,15 +655,52 @@ func reader(rn *runner, r *hx.Rng) {
 	case k < 5:
 		rn.getVidLocs(genVidString(r))
 	case k < 7 || len(rn.snaps) == 0:
-		rn.snap(uint32(1 + r.Intn(3)))
+		if r.Chance(1, 8) {
+			rn.snap(uint32(1 + r.Intn(3)))
+		} else {
+			rn.snap(u.vid(r))
+		}
 	default:
 		rn.reread(r.Intn(len(rn.snaps)))
 	}
 }
 
+type pres struct {
+	v uint32
+	u int
+}
+
+// directUpdate performs one random direct update (add / delete biased to present
+// urls / reset)
+func directUpdate(rn *runner, r *hx.Rng, u uni, present *[]pres) {
+	switch k := r.Intn(15); {
+	case k < 9:
+		l := u.loc(r)
+		v := u.vid(r)
+		rn.ev(true, v, l)
+		for i := range urls {
+			if urls[i] == l.Url {
+				*present = append(*present, pres{v, i})
+			}
+		}
+	case k < 14:
+		if len(*present) > 0 && r.Chance(4, 5) {
+			p := (*present)[r.Intn(len(*present))]
+			rn.ev(false, p.v, mkLoc(p.u, r.Intn(3)))
+		} else {
+			rn.ev(false, u.vid(r), u.loc(r))
+		}
+	default:
+		rn.reset()
+		*present = nil
+	}
+}
+
+const nDeterministic = 9
+
 func main() {
 	out := hx.Flags("C35", 400)
-	out.Rule = "cases 0-2: regression cases = the former witnesses of the three repaired defects (slice held across a delete, data center after a reconnect, volume-id string outside uint32); then random histories of 5..30 operations over volumes {1,2,3} x urls {u1..u4} x data centers {dc1,dc2,(empty)}: direct mode = addLocation/deleteLocation calls (45% adds, 25% deletes biased to present urls) mixed with readers (LookupVolumeServerUrl/LookupFileId/GetVidLocations with 1 in 6 malformed or out-of-range id strings, GetLocations slices that are kept, re-reads of kept slices); every 8th case stream mode = VolumeLocation messages (0-3 new and 0-2 deleted vids, 1 in 10 with a leader hint) over a real gRPC KeepConnected stream, 1 in 8 steps a disconnect; after every update GetLocations of volumes 1,2,3 (content and capacity) and DataCenter are recorded; non-trivial = some volume had a location; distinct = canonical op list"
+	out.Rule = "cases 0-8 are fixed: 0-2 regression cases = the former witnesses of the first three repaired defects (slice held across a delete, data center after a reconnect, volume-id string outside uint32); 3 the last location removed (must be not-found, then re-added with a fresh array); 4 growth to 6 locations with held slices re-read across in-place appends, reallocation and delete/re-add (capacities 1,2,4,3,6,5,10); 5 boundary volume ids 0 and 4294967295 and the strings 0, 00, 4294967295, 4294967296; 6 direct resets by a real tryAllMasters round over two unreachable masters with a slice held across them; 7 stream with an unreachable master before and after the real one, a direct add dropped by the first reset, a leader hint followed directly by a disconnect; 8 concurrent: 3 reader goroutines during 40 fixed updates incl. resets. Then random histories over volumes {1..nv} (nv in 1..3) x the first nu urls (nu in 2,3,4,6) x data centers {dc1,dc2,(empty)}: direct mode = 5..30 operations, addLocation/deleteLocation calls (45% adds, 25% deletes biased to present urls, 5% resets = real tryAllMasters rounds over 1-2 unreachable masters) mixed with readers (LookupVolumeServerUrl/LookupFileId/GetVidLocations with 1 in 6 malformed or out-of-range id strings, GetLocations slices that are kept, re-reads of kept slices); every 8th case stream mode = VolumeLocation messages (0-3 new and 0-2 deleted vids, 1 in 10 with a leader hint) over a real gRPC KeepConnected stream, 1 in 8 steps a disconnect, 1 in 16 a leader hint followed directly by a disconnect, 0-1 unreachable masters before/after the real one; every 8th case concurrent direct and every 16th concurrent stream: 2-4 reader goroutines (GetLocations / LookupVolumeServerUrl / GetVidLocations, held slices) run during 15-40 updates, each recorded answer carries its window [lo,hi] of update indices; after every update GetLocations of volumes 1,2,3 (content and capacity) and DataCenter are recorded; non-trivial = some volume had a location; distinct = canonical op list"
 	root := hx.NewRng(out.Seed)
 	A, B, C := mkLoc(0, 1), mkLoc(1, 2), mkLoc(2, 1)
 	for i := 0; i < out.N; i++ {
@@ -434,7 +708,7 @@ func main() {
 		switch {
 		case i == 0:
 			// repaired (fix-c35-delete-copies): the held slice used to show u3 twice and lose u1
-			rn := newRunner(out, "dc1", false)
+			rn := newRunner(out, "dc1", false, 0, 0)
 			rn.ev(true, 1, A)
 			rn.ev(true, 1, B)
 			rn.ev(true, 1, C)
@@ -444,7 +718,7 @@ func main() {
 			rn.emit("dc1", "witness-alias")
 		case i == 1:
 			// repaired (fix-c35-reconnect-dc): after a lost connection the client's data center used to be forgotten
-			rn := newRunner(out, "dc1", true)
+			rn := newRunner(out, "dc1", true, 0, 0)
 			rn.msg(false, B, []uint32{1}, nil)
 			rn.lookupUrl("1")
 			rn.disconnect()
@@ -454,56 +728,181 @@ func main() {
 			rn.emit("dc1", "witness-reconnect")
 		case i == 2:
 			// repaired (fix-c35-vid-parse): "4294967297" used to be answered with volume 1
-			rn := newRunner(out, "dc1", false)
+			rn := newRunner(out, "dc1", false, 0, 0)
 			rn.ev(true, 1, A)
 			rn.lookupUrl("4294967297")
 			rn.lookupUrl("1")
 			rn.emit("dc1", "witness-wrap")
+		case i == 3:
+			// repaired (fix-c35-delete-last-entry): the volume used to stay "found" with no locations
+			rn := newRunner(out, "dc1", false, 0, 0)
+			rn.ev(true, 1, A)
+			rn.snap(1)
+			rn.ev(false, 1, A)
+			rn.lookupUrl("1")
+			rn.lookupFid("1,01637037d6")
+			rn.getVidLocs("1")
+			rn.snap(1)
+			rn.reread(0)
+			rn.ev(true, 1, B)
+			rn.lookupUrl("1")
+			rn.ev(true, 2, A)
+			rn.ev(true, 2, B)
+			rn.ev(false, 2, A)
+			rn.ev(false, 2, B)
+			rn.getVidLocs("2")
+			rn.reread(0)
+			rn.emit("dc1", "witness-last-location")
+		case i == 4:
+			// capacities: 1,2,4 by doubling; delete -> exactly len-1; 3 -> 6; 5 -> 10
+			rn := newRunner(out, "dc2", false, 0, 0)
+			rn.ev(true, 1, mkLoc(0, 1))
+			rn.ev(true, 1, mkLoc(1, 2))
+			rn.ev(true, 1, mkLoc(2, 1))
+			rn.snap(1) // len 3 cap 4
+			rn.ev(true, 1, mkLoc(3, 2))
+			rn.reread(0) // in-place append behind the held cells
+			rn.snap(1)
+			rn.ev(false, 1, mkLoc(1, 0)) // fresh array len 3 cap 3
+			rn.ev(true, 1, mkLoc(1, 1))  // cap 6, u2 now with dc1
+			rn.reread(0)
+			rn.reread(1)
+			rn.snap(1)
+			rn.ev(true, 1, mkLoc(4, 2))
+			rn.ev(true, 1, mkLoc(5, 2)) // len 6 cap 6
+			rn.lookupUrl("1")
+			rn.snap(1)
+			rn.ev(false, 1, mkLoc(0, 0)) // len 5 cap 5
+			rn.ev(true, 1, mkLoc(0, 2))  // len 6 cap 10
+			rn.lookupUrl("1")
+			rn.reread(2)
+			rn.reread(3)
+			rn.ev(true, 1, mkLoc(0, 1)) // duplicate url: ignored
+			rn.emit("dc2", "caps")
+		case i == 5:
+			// boundary volume ids
+			rn := newRunner(out, "dc1", false, 0, 0)
+			rn.ev(true, 4294967295, A)
+			rn.ev(true, 0, B)
+			rn.lookupUrl("4294967295")
+			rn.lookupUrl("4294967296")
+			rn.lookupUrl("0")
+			rn.lookupUrl("00")
+			rn.getVidLocs("4294967295")
+			rn.getVidLocs("4294967296")
+			rn.lookupFid("4294967295,01637037d6")
+			rn.lookupFid("0,01637037d6")
+			rn.ev(false, 4294967295, A)
+			rn.lookupUrl("4294967295")
+			rn.ev(false, 0, A)
+			rn.lookupUrl("0")
+			rn.emit("dc1", "boundary-vids")
+		case i == 6:
+			// a slice held across resets; lookups after a reset without re-add
+			rn := newRunner(out, "dc1", false, 2, 0)
+			rn.ev(true, 1, B)
+			rn.ev(true, 1, A)
+			rn.ev(true, 2, C)
+			rn.snap(1)
+			rn.lookupUrl("1")
+			rn.reset()
+			rn.reread(0)
+			rn.lookupUrl("1")
+			rn.getVidLocs("2")
+			rn.snap(1)
+			rn.ev(true, 1, C)
+			rn.ev(true, 1, A)
+			rn.lookupUrl("1")
+			rn.reread(0)
+			rn.reset()
+			rn.reset()
+			rn.reread(0)
+			rn.emit("dc1", "direct-reset")
+		case i == 7:
+			// [unreachable, real, unreachable]; a direct add is dropped by the first reset
+			rn := newRunner(out, "dc2", true, 1, 1)
+			rn.ev(true, 1, A)
+			rn.snap(1)
+			rn.msg(false, B, []uint32{2, 1}, nil)
+			rn.reread(0)
+			rn.lookupUrl("1")
+			rn.msg(false, C, []uint32{1, 2}, []uint32{2})
+			rn.leaderThenDisconnect(A, []uint32{3}, nil)
+			rn.lookupUrl("1")
+			rn.msg(false, A, []uint32{3}, nil)
+			rn.msg(true, B, []uint32{3}, []uint32{3})
+			rn.lookupUrl("3")
+			rn.disconnect()
+			rn.emit("dc2", "multi-master")
+		case i == 8:
+			rn := newRunner(out, "dc1", false, 1, 0)
+			rn.startReaders(3, r, []uint32{1, 2})
+			for j := 0; j < 40; j++ {
+				v := uint32(1 + j%2)
+				switch {
+				case j%13 == 12:
+					rn.reset()
+				case j%5 == 3:
+					rn.ev(false, v, mkLoc((j/2)%4, 0))
+				default:
+					rn.ev(true, v, mkLoc((j/3)%6, 1+j%2))
+				}
+				pause(r)
+			}
+			rn.emit("dc1", "concurrent-fixed")
 		case i%8 == 7:
+			// stream mode, every second one with concurrent readers
 			dc := []string{"dc1", "dc1", "dc2", ""}[r.Intn(4)]
-			rn := newRunner(out, dc, true)
+			u := genUni(r)
+			rn := newRunner(out, dc, true, r.Intn(2), r.Intn(2))
+			concurrent := i%16 == 15
 			n := r.Range(3, 10)
+			if concurrent {
+				rn.startReaders(r.Range(2, 4), r, u.vids())
+				n = r.Range(6, 14)
+			}
 			for j := 0; j < n; j++ {
 				switch k := r.Intn(16); {
 				case k < 2:
 					rn.disconnect()
-				case k < 10:
-					rn.msg(r.Chance(1, 10), genLoc(r), genVids(r, 3), genVids(r, 2))
+				case k < 3:
+					rn.leaderThenDisconnect(u.loc(r), u.genVids(r, 2), u.genVids(r, 1))
+				case k < 10 || concurrent:
+					rn.msg(r.Chance(1, 10), u.loc(r), u.genVids(r, 3), u.genVids(r, 2))
 				default:
-					reader(rn, r)
+					reader(rn, r, u)
 				}
 			}
 			rn.lookupUrl(r.PickStr(vidStrings))
-			rn.emit(dc, "stream")
-		default:
-			dc := []string{"dc1", "dc1", "dc2", ""}[r.Intn(4)]
-			rn := newRunner(out, dc, false)
-			n := r.Range(5, 30)
-			type pres struct {
-				v uint32
-				u int
+			if concurrent {
+				rn.emit(dc, "stream-concurrent")
+			} else {
+				rn.emit(dc, "stream")
 			}
+		case i%8 == 3:
+			// direct mode with concurrent readers
+			dc := []string{"dc1", "dc1", "dc2", ""}[r.Intn(4)]
+			u := genUni(r)
+			rn := newRunner(out, dc, false, r.Range(1, 2), 0)
+			rn.startReaders(r.Range(2, 4), r, u.vids())
+			n := r.Range(15, 40)
 			var present []pres
 			for j := 0; j < n; j++ {
-				switch k := r.Intn(20); {
-				case k < 9:
-					l := genLoc(r)
-					v := uint32(1 + r.Intn(3))
-					rn.ev(true, v, l)
-					for u := range urls {
-						if urls[u] == l.Url {
-							present = append(present, pres{v, u})
-						}
-					}
-				case k < 14:
-					if len(present) > 0 && r.Chance(4, 5) {
-						p := present[r.Intn(len(present))]
-						rn.ev(false, p.v, mkLoc(p.u, r.Intn(3)))
-					} else {
-						rn.ev(false, uint32(1+r.Intn(3)), genLoc(r))
-					}
-				default:
-					reader(rn, r)
+				directUpdate(rn, r, u, &present)
+				pause(r)
+			}
+			rn.emit(dc, "direct-concurrent")
+		default:
+			dc := []string{"dc1", "dc1", "dc2", ""}[r.Intn(4)]
+			u := genUni(r)
+			rn := newRunner(out, dc, false, r.Range(1, 2), 0)
+			n := r.Range(5, 30)
+			var present []pres
+			for j := 0; j < n; j++ {
+				if r.Intn(20) < 14 {
+					directUpdate(rn, r, u, &present)
+				} else {
+					reader(rn, r, u)
 				}
 			}
 			rn.emit(dc, "direct")
